@@ -231,7 +231,7 @@ PROPS['C17'] = {
     'level': 'exploration',
     'engine': 'E',
     'parts': [{'src': 'harness/anydata.cpp', 'prefix': 'C17/', 'variants': ['g17O0'], 'defs': ['VERIF_SUB=%d' % i]} for i in range(4)],
-    'rule': 'complete enumeration: AnyData<1>, <16>, <24>, <64> x payload kinds {trivial bytes: every size 1..capacity+17; tracked non-trivial (ledger): every size 5..capacity+17; move-only (unique_ptr + padding) and shared-ownership (shared_ptr + padding): every multiple of 8 up to capacity+24} x construction from lvalue / const lvalue / rvalue x move chains of length 0..3 x direct / round trip through EventQueue<int, void(const AnyData&)> (enqueue, process, recycled slot, clearEvents, destruction with a pending event); oracle: value equality through get<T>, T&, T*, getAddress stable, isType<U> over a list of 24 probe types incl. same-size other kinds, exactly one copy from lvalues and none on moves, ledger exactly-once destruction; a case is non-trivial and distinct per (capacity, kind, size, category, chain, route)',
+    'rule': 'complete enumeration: AnyData<1>, <16>, <24>, <64> x payload kinds {trivial bytes: every size 1..capacity+17; tracked non-trivial (ledger): every size 5..capacity+17; move-only (unique_ptr + padding), shared-ownership (shared_ptr + padding) and self-referential (trivially destructible but with a user move constructor, pointing into itself): every multiple of 8 up to capacity+24} x construction from lvalue / const lvalue / rvalue x move chains of length 0..3 x direct / round trip through EventQueue<int, void(const AnyData&)> (enqueue, process, recycled slot, clearEvents, destruction with a pending event); oracle: value equality through get<T>, T&, T*, getAddress stable, isType<U> over a list of 24 probe types incl. same-size other kinds, exactly one copy from lvalues and none on moves, ledger exactly-once destruction; a case is non-trivial and distinct per (capacity, kind, size, category, chain, route)',
     'assumptions': E_ASSUME + ['takeEvent/peekEvent cannot be instantiated with AnyData arguments (no default constructor / assignment), so the queue round trip uses enqueue/process/processOne/clearEvents'],
     'bounds': {'quick': 'all cases (compile-dominated)', 'thorough': 'same cases'},
     'technique': 'bounded-exhaustive enumeration of the input space on the real code with sanitizers and a destruction ledger',
@@ -251,7 +251,7 @@ PROPS['C18'] = {
 def _c20_group(name):
     # C20/<program set>/<policy configuration...>; pool units: C20/pool/<Type>/<threading>/mem<XX>; dispatch cells: the whole name
     parts = name.split('/')
-    if parts[0] == 'C04':
+    if parts[0] in ('C04', 'C05'):
         return name
     if len(parts) > 2 and parts[1] == 'pool':
         return '/'.join(parts[:3])
@@ -270,7 +270,9 @@ PROPS['C20'] = {
            + [{'src': 'harness/pool.cpp', 'prefix': 'C20/', 'variants': _ALL16, 'quick_variants': _CORNER, 'defs': ['VERIF_PREFIX="C20/pool"', 'VERIF_ALLPATTERNS', 'VERIF_SUB=%d' % i]} for i in (0, 2, 5)]
            + [{'src': 'harness/pool.cpp', 'prefix': 'C20/', 'variants': _ALL16, 'tier': 'thorough', 'defs': ['VERIF_PREFIX="C20/pool"', 'VERIF_ALLPATTERNS', 'VERIF_SUB=%d' % i]} for i in (1, 3, 4)]
            + [{'src': 'harness/dispatch.cpp', 'prefix': 'C04/', 'variants': ['g14', 'c14'], 'tier': 'quick', 'defs': ['VERIF_SUB=2', 'VERIF_FULL=0']}]
-           + [{'src': 'harness/dispatch.cpp', 'prefix': 'C04/', 'variants': _ALL12, 'tier': 'thorough', 'defs': ['VERIF_SUB=%d' % i, 'VERIF_FULL=0']} for i in range(5)],
+           + [{'src': 'harness/dispatch.cpp', 'prefix': 'C04/', 'variants': _ALL12, 'tier': 'thorough', 'defs': ['VERIF_SUB=%d' % i, 'VERIF_FULL=0']} for i in range(5)]
+           + [{'src': 'harness/dispatch.cpp', 'prefix': 'C05/', 'variants': ['g14', 'c14'], 'tier': 'quick', 'defs': ['VERIF_QUEUE', 'VERIF_SUB=2', 'VERIF_FULL=0']}]
+           + [{'src': 'harness/dispatch.cpp', 'prefix': 'C05/', 'variants': _ALL12, 'tier': 'thorough', 'defs': ['VERIF_QUEUE', 'VERIF_SUB=%d' % i, 'VERIF_FULL=0']} for i in (0, 2, 3)],
     'rule': 'configuration product: the generated program sets of C01 (CallbackList/EventDispatcher flat and nested), C04 (dispatch type-matrix cells), C05 (EventQueue flat and nested-consume) and C10 (object pools of 6 container types) are compiled and explored under compilers {g++ 12, clang++ 14} x {-O0/-O1, -O2} x -std={c++11, c++14, c++17, c++20} (C04 cells: c++14 and later) x Threading {SingleThreading, injected V-policy, SpinLock, std::mutex} x Map {std::unordered_map, std::map, user template} x Callback {std::function, comparable functor} x prior memory {0xFF, 0x00, 0xA5}; every configuration must agree with the reference model on every execution AND the hash of the complete observable trace of the whole exploration must be identical for all configurations of a program set; distinct = distinct per-execution observation hashes',
     'assumptions': ['compilers limited to the two installed (libstdc++ only); MSVC-specific paths and the __GNUC__ < 5 variant of CallbackList::operator() are not compiled', 'the uninitialised-state clause is made deterministic by pre-filling object storage with three byte patterns (no MemorySanitizer run: its uninstrumented libstdc++ would raise false reports)'] + H_ASSUME[:1],
     'bounds': {'quick': '4 corner build configurations {g++ c++11 -O2, g++ c++17 -O0, clang++ c++11 -O0, clang++ c++20 -O2} x list/queue/pool program sets (depth 3-5) + std::string dispatch cells under g++/clang++ c++14', 'thorough': 'all 16 build configurations x all program sets (depth 4-7), 12 for the dispatch cells'},
